@@ -298,10 +298,11 @@ type env struct {
 	wmu    sync.Mutex
 	writes []wop
 
-	rmu       sync.Mutex
-	reads     []rrec
-	sentinels int
-	readErrs  []string
+	rmu         sync.Mutex
+	consumerIDs []string // goroutine ids of the Read callers (to find them in a dump)
+	reads       []rrec
+	sentinels   int
+	readErrs    []string
 
 	verbose     bool // attach the scenario and a history sample to a held result (first cases only: evidence size)
 	writersDone atomic.Bool
@@ -365,6 +366,16 @@ func (e *env) waitConfirm(id string, after int64, d time.Duration) bool {
 			runtime.Gosched()
 		}
 	}
+}
+
+// goid returns the id of the calling goroutine as printed in goroutine dumps.
+func goid() string {
+	buf := make([]byte, 64)
+	f := strings.Fields(string(buf[:runtime.Stack(buf, false)]))
+	if len(f) > 1 {
+		return f[1]
+	}
+	return "?"
 }
 
 func goroutineState(header string) string {
@@ -666,6 +677,10 @@ func execCase(sp *spec, abort chan struct{}, verbose bool) vrun.Result {
 		cg.Add(1)
 		go func() {
 			defer cg.Done()
+			id := goid()
+			e.rmu.Lock()
+			e.consumerIDs = append(e.consumerIDs, id)
+			e.rmu.Unlock()
 			for {
 				var b []byte
 				var err error
@@ -966,14 +981,19 @@ func execCase(sp *spec, abort chan struct{}, verbose bool) vrun.Result {
 // case's member transports and of its multi transport in the frame arguments).
 func (e *env) readPathIdle() (bool, string) {
 	gs := vrun.ParseStacks(vrun.AllStacks())
-	mtArg := fmt.Sprintf("multi.(*Transport).Read(%p", e.mt)
+	e.rmu.Lock()
+	ids := map[string]bool{}
+	for _, id := range e.consumerIDs {
+		ids["goroutine "+id+" "] = true
+	}
+	e.rmu.Unlock()
 	consumers := 0
 	readers := map[string]int{}
 	for _, g := range gs {
 		st := goroutineState(g.Header)
-		if strings.Contains(g.Text, mtArg) {
-			if st != "select" {
-				return false, "a Read caller is " + st
+		if i := strings.Index(g.Header, "["); i > 0 && ids[g.Header[:i]] {
+			if st != "select" || !strings.Contains(g.Text, "multi.(*Transport).Read(") {
+				return false, "a Read caller is not blocked in Read (" + st + ")"
 			}
 			consumers++
 			continue
